@@ -528,6 +528,16 @@ pub fn check_main(args: &[String]) -> i32 {
         }
     }
 
+    // optional dump of every run's digest (tools/determinism.sh compares them across worker counts)
+    if let Ok(path) = std::env::var("SIMCTL_DIGESTS") {
+        let mut v: Vec<(&u64, &u64)> = digests.iter().collect();
+        v.sort();
+        let mut out = String::new();
+        for (i, d) in v {
+            out.push_str(&format!("{} {:016x}\n", i, d));
+        }
+        let _ = std::fs::write(path, out);
+    }
     // determinism recheck
     let mut mismatches = 0;
     for (i, d) in &rechecks {
